@@ -425,6 +425,48 @@ func helperCases(c *Ctx, nmax int, permLimit int, emit func(helperCase)) int {
 			}
 		}
 	}
+	// large target lists: hundreds (thorough: 1300-2600) of targets per proof - indexes and counters of
+	// 8 bits wrap here (16-bit ones are out of reach: see the note at largeNs). A few dead leaves; evens, odds, halves and all live leaves.
+	largeNs := []int{600}
+	if c.Thorough() {
+		largeNs = []int{600, 2600} // the helpers and the oracle are quadratic in the list length: 70 000 does not finish
+	}
+	for _, N := range largeNs {
+		s := ref.State{Alive: make([]bool, N)}
+		for i := range s.Alive {
+			s.Alive[i] = i != 1 && i != 5 && i != N/2
+		}
+		states++
+		key := s.Key()
+		live := s.Live()
+		var evens, odds, first, second, oddsRev []int
+		for i, sl := range live {
+			if sl%2 == 0 {
+				evens = append(evens, sl)
+			} else {
+				odds = append(odds, sl)
+			}
+			if i < len(live)/2 {
+				first = append(first, sl)
+			} else {
+				second = append(second, sl)
+			}
+		}
+		for i := len(odds) - 1; i >= 0; i-- {
+			oddsRev = append(oddsRev, odds[i])
+		}
+		sets := [][]int{evens, odds, first, second, live, oddsRev}
+		for _, A := range sets {
+			for _, B := range sets {
+				emit(helperCase{Fn: "addproof", N: N, Alive: key, A: A, B: B})
+				emit(helperCase{Fn: "missing", N: N, Alive: key, A: A, B: B})
+			}
+			emit(helperCase{Fn: "subset", N: N, Alive: key, A: live, B: A})
+			emit(helperCase{Fn: "mapmissing", N: N, Alive: key, A: A, Mode: "even", TR: 63})
+			emit(helperCase{Fn: "mapmissing", N: N, Alive: key, A: A, Mode: "none", TR: 0})
+		}
+	}
+	c.Cov.Bound["large_target_lists.N"] = fmt.Sprint(largeNs)
 	return states
 }
 
